@@ -234,3 +234,44 @@ package stree
 //@   modifies t.root, t.size, t.max, t.elems, every(t.root.left), every(t.root.right), every(t.root.X), every(t.root.keys), every(t.root.desc), every(t.root.cnt)
 //@   at exit: ghost t.elems = setdel(t.elems, rank(t.compare, key))
 //@   call rewrite#1: cmp = t.compare
+//@
+// C03. A cursor is a path from the root of a tree down to its current node. pathOK: the first element is the root of
+// a well-formed (sub)tree, every further element is the left or right child of its predecessor, and (so that the
+// order of keys along the path is available without induction) every element lies in the subtree of every earlier one.
+//@ pred pathOK(c *Cursor[T], cmp func(T, T) int) := len(c.path) > 0 ==> treeOK(c.path[0], cmp)
+//@+     && (forall k int :: {c.path[k]} 0 <= k && k < len(c.path) ==> c.path[k] != nil && allocated(c.path[k]))
+//@+     && (forall k int :: {c.path[k]} 0 <= k && k + 1 < len(c.path) ==> c.path[k + 1] == c.path[k].left || c.path[k + 1] == c.path[k].right)
+//@+     && (forall k int :: {c.path[k]} 0 <= k && k < len(c.path) ==> c.path[k] in c.path[0].desc)
+//@+     && (forall j int, k int :: {c.path[j], c.path[k]} 0 <= j && j <= k && k < len(c.path) ==> c.path[k] in c.path[j].desc)
+//@ spec cur(c *Cursor[T]) *node[T] := c.path[len(c.path) - 1]
+//@
+//@ func (*Cursor).Valid
+//@   pure
+//@   ensures result == (c != nil && len(c.path) != 0)
+//@
+//@ func (*Cursor).Key
+//@   ensures [C03] valid: c != nil && len(c.path) != 0 ==> result == cur(c).X
+//@   ensures [C03] invalid: c == nil || len(c.path) == 0 ==> result == zero
+//@   requires [C03] c != nil ==> forall k int :: {c.path[k]} 0 <= k && k < len(c.path) ==> c.path[k] != nil
+//@
+//@ func (*Cursor).HasLeft
+//@   requires [C03] c != nil ==> forall k int :: {c.path[k]} 0 <= k && k < len(c.path) ==> c.path[k] != nil
+//@   ensures  [C03] result == (c != nil && len(c.path) != 0 && cur(c).left != nil)
+//@
+//@ func (*Cursor).HasRight
+//@   requires [C03] c != nil ==> forall k int :: {c.path[k]} 0 <= k && k < len(c.path) ==> c.path[k] != nil
+//@   ensures  [C03] result == (c != nil && len(c.path) != 0 && cur(c).right != nil)
+//@
+//@ func (*Cursor).HasParent
+//@   ensures  [C03] result == (c != nil && len(c.path) > 1)
+//@
+//@ func (*Cursor).Left
+//@   ghost cmp func(T, T) int
+//@   requires [C03] c != nil ==> pathOK(c, cmp)
+//@   ensures  [C03] same: result == c && (c != nil ==> pathOK(c, cmp))
+//@   ensures  [C03] moved: c != nil && old(len(c.path)) != 0 && old(cur(c).left) != nil ==> len(c.path) == old(len(c.path)) + 1 && cur(c) == old(cur(c).left) && rank(cmp, cur(c).X) < old(rank(cmp, cur(c).X))
+//@   ensures  [C03] off: c != nil && old(len(c.path)) != 0 && old(cur(c).left) == nil ==> len(c.path) == 0
+//@   ensures  [C03] prefix: c != nil ==> forall k int :: {c.path[k]} 0 <= k && k < old(len(c.path)) && k < len(c.path) ==> c.path[k] == old(c.path[k])
+//@   modifies c.path, backing(c.path)
+//@   at before "c.path = append(c.path, left)": assert [C03] local(cur(c), cmp) && closed(cur(c)) && left in cur(c).desc
+//@   at before "c.path = append(c.path, left)": assert [C03] forall j int :: {c.path[j]} 0 <= j && j < len(c.path) ==> closed(c.path[j]) && left in c.path[j].desc
